@@ -95,6 +95,7 @@ func cmdCheck(args []string) int {
 	keep := fs.String("keep", "", "directory to keep SMT files in (default: temp, removed)")
 	timeout := fs.Int("timeout", 0, "per-solver timeout in seconds (default quick 10, thorough 60)")
 	verbose := fs.Bool("v", false, "verbose")
+	fs.BoolVar(&debugSplit, "split", false, "debugging: split postconditions into their top-level conjuncts")
 	fs.Parse(args)
 	t0 := time.Now()
 	if *timeout == 0 {
@@ -281,7 +282,7 @@ func cmdCheck(args []string) int {
 				base = base[:i]
 			}
 			for _, rr := range reg.Replays {
-				if rr.Obligation == r.Obl.Name || rr.Obligation == base {
+				if rr.Obligation == r.Obl.Name || rr.Obligation == base || globMatch(rr.Obligation, r.Obl.Name) {
 					ok, out := runGoReplay(*verifDir, rr.Pkg, rr.File, rr.Run)
 					logp := strings.TrimSuffix(rp, ".json") + ".replay.log"
 					os.WriteFile(logp, []byte(out), 0o644)
@@ -480,4 +481,13 @@ func isDigits(s string) bool {
 		}
 	}
 	return true
+}
+
+// globMatch: pattern with * wildcards against an obligation name.
+func globMatch(pat, name string) bool {
+	if !strings.Contains(pat, "*") {
+		return false
+	}
+	re, err := regexp.Compile("^" + strings.ReplaceAll(regexp.QuoteMeta(pat), `\*`, ".*") + "$")
+	return err == nil && re.MatchString(name)
 }
